@@ -49,6 +49,9 @@ if "determinism.sketch_answers_strings" not in CATALOGUE:
         hll = HyperLogLog(precision=4, seed=seed)
         topk = TopK(k=3)
         items = [f"user-{i}" for i in range(12)] + [("tenant", i) for i in range(4)] + [b"raw-%d" % i for i in range(3)]
+        # composite keys with a numeric member: ints for even seeds, the equal floats for odd seeds (two models of
+        # one process may use equal keys of different type; what a sketch hashes must depend on the key alone)
+        items += [("region", i if seed % 2 == 0 else float(i)) for i in range(6)]
         # composite keys (tuples with strings, frozensets, bytes) into a finer HLL as well
         items += [("tenant-%d" % (i % 5), "endpoint-%d" % i) for i in range(40)] + [frozenset({"a", "k%d" % i}) for i in range(10)] + [b"blob-%d" % i for i in range(10)]
         hll_fine = HyperLogLog(precision=8, seed=seed)
@@ -601,3 +604,53 @@ if "determinism.shared_config_objects" not in CATALOGUE:
         for i in range(150):
             sim.schedule(ev(i * 4_000_000, "tick", nodes[rng.choice(names)]))
         return Scenario(sim, {"net": net, **nodes}, "determinism", True, 150)
+
+
+
+if "determinism.source_events_tagged_in_flight" not in CATALOGUE:
+
+    @scenario("determinism.source_events_tagged_in_flight", "determinism")
+    def source_events_tagged_in_flight(seed, params):
+        """Source-generated requests pass a tagger that adds a client id to SOME of them with add_context()
+        before an IPHash load balancer: what one request carries must not leak into the others (nor into the
+        next simulation of the process)."""
+        from happysimulator.components.load_balancer import LoadBalancer
+        from happysimulator.components.load_balancer.strategies import IPHash
+        from happysimulator.core.temporal import Instant
+        from happysimulator.load.source import Source
+
+        rng = random.Random(seed)
+
+        class Backend(Entity):
+            def __init__(self, name):
+                super().__init__(name)
+                self.got = 0
+                self.ids = []
+
+            def handle_event(self, event):
+                self.got += 1
+                self.ids.append(event.get_context("client_id"))
+                return None
+
+        backends = [Backend(f"backend-{i}") for i in range(3)]
+        lb = LoadBalancer("lb", strategy=IPHash())
+        for b in backends:
+            lb.add_backend(b)
+        first_tag = rng.choice([4, 7])
+        n_clients = rng.choice([3, 5])
+
+        class Tagger(Entity):
+            def __init__(self):
+                super().__init__("tagger")
+                self.n = 0
+
+            def handle_event(self, event):
+                self.n += 1
+                if self.n >= first_tag and self.n % 3 == 0:
+                    event.add_context("client_id", f"client-{(self.n * 7) % n_clients}")
+                return [self.forward(event, lb)]
+
+        tagger = Tagger()
+        src = Source.constant(rate=20.0, target=tagger, event_type="Request", stop_after=Instant.from_seconds(2.0), name="src")
+        sim = make_sim([tagger, lb, *backends], 3.0, sources=[src])
+        return Scenario(sim, {"tagger": tagger, "lb": lb, **{b.name: b for b in backends}}, "determinism", True, 40)
